@@ -38,7 +38,7 @@ def gen_cases(tier):
     cases = []
     for i in range(n):
         r = random.Random(rng.getrandbits(64))
-        c = c01.make_case(r, tier, thermal_p=0.35, mod_p=0.25, maxdeps=2, file_p=0.2, big=(tier == "thorough" and i % 5 == 0))
+        c = c01.make_case(r, tier, thermal_p=0.35, mod_p=0.25, maxdeps=2, file_p=(1.0 if i % 5 == 3 else 0.2), big=(tier == "thorough" and i % 5 == 0))
         if c["net"]["reactions"] and r.random() < 0.3:
             # rate modifiers on reactions whose file index is far from their position in the rate array: the override must
             # still address k[position]
